@@ -102,7 +102,7 @@ theorem semCheck_spelling_clauses {lex : List LProd} {syn : List SProd} {imports
       p.body = [⟨.tokId, "empty"⟩]) := by
   have hres := KindG.noReserved_of_semCheck h
   have hwf := (C14_semCheck_iff _ imports hk hres).1 h
-  obtain ⟨-, r2, r3⟩ := KindG.reservedUse_none hres
+  obtain ⟨-, r2, r3⟩ := KindG.reservedUse_none hres.1
   refine ⟨hwf.prodsDefined, fun p hp s hs hkd => (r2 p hp s hs hkd).2, fun p hp s hs hkd hn => ?_⟩
   have hlen := r3 p hp s hs hkd hn
   have hs' : s = ⟨.tokId, "empty"⟩ := by
